@@ -231,6 +231,9 @@ def _gen_div(rng):
         line = "%s %s %s/%s" % (a, c, k, d)
     else:
         line = "%s*%s/%s %s %s" % (k, a, d, c, k2)
+    # people write divisions with blanks around the slash as well: the rewriting must not depend on them
+    sp = rng.choice(["/", "/", " / ", " / ", "/ ", " /"])
+    line = line.replace("/", sp)
     lines = [line]
     if rng.random() < 0.35:
         lines.insert(rng.randrange(2), _linear_line(rng, cls, names))
